@@ -1,6 +1,7 @@
 package main
 
 import (
+	"sort"
 	"strings"
 )
 
@@ -101,6 +102,9 @@ func (sp *nspec) JSON() M {
 	for i, d := range sp.ExtraDefs {
 		defs[d] = M{"type": "object", "properties": M{"extra" + string(rune('a'+i)): M{"type": "string"}}}
 	}
+	for k, v := range kindDefs {
+		defs[k] = v
+	}
 	id := func(slot string) M {
 		if sp.NoIDs {
 			return M{}
@@ -176,7 +180,29 @@ func (sp *nspec) ops() [][2]string {
 
 func (sp *nspec) defs() []string {
 	out := []string{"VerifError", sp.n("def0"), sp.n("def1"), sp.n("def2")}
+	for k := range kindDefs {
+		out = append(out, k)
+	}
+	sort.Strings(out[4:])
 	return append(out, sp.ExtraDefs...)
+}
+
+// kindDefs: one definition of every kind of schema (plainly named): each must get a model type of its own, whatever it is made of
+var kindDefs = map[string]M{
+	"KindBinary":      {"type": "string", "format": "binary"},
+	"KindDate":        {"type": "string", "format": "date-time"},
+	"KindInteger":     {"type": "integer", "format": "int32", "minimum": 1},
+	"KindNumber":      {"type": "number"},
+	"KindBoolean":     {"type": "boolean"},
+	"KindArray":       {"type": "array", "items": M{"type": "string"}},
+	"KindNestedArray": {"type": "array", "items": M{"type": "array", "items": M{"type": "integer"}}},
+	"KindMap":         {"type": "object", "additionalProperties": M{"type": "integer"}},
+	"KindMapOfRefs":   {"type": "object", "additionalProperties": M{"$ref": "#/definitions/VerifError"}},
+	"KindEmpty":       {"type": "object"},
+	"KindUntyped":     {},
+	"KindAllOf":       {"allOf": []interface{}{M{"$ref": "#/definitions/VerifError"}, M{"type": "object", "properties": M{"more": M{"type": "string"}}}}},
+	"KindRefOnly":     {"$ref": "#/definitions/VerifError"},
+	"KindTuple":       {"type": "array", "items": []interface{}{M{"type": "string"}, M{"type": "integer"}}},
 }
 
 // opsWithIDs: method, path, operationId of every operation of the document
